@@ -8,6 +8,7 @@ From ClapModel Require Import Value.PossibleValues.
 From ClapModel Require Import Derive.DeriveModel Derive.DeriveProofs.
 From ClapModel Require Import ParseProofs.Actions ParseProofs.ActionsLoop ParseProofs.Unparse ParseProofs.UnparseTop ParseProofs.UnparseTree.
 From ClapModel Require Import Derive.DeriveCmd Derive.DeriveArgs Derive.DeriveParse Derive.DeriveUpdate Derive.DeriveAccept Derive.DeriveParseEx.
+From ClapModel Require Import Parse.Validator ParseProofs.Relations ParseProofs.ValidateTotal Derive.DerivePost Derive.DerivePostEx.
 From Coq Require Import ZArith List.
 Import ListNotations.
 Open Scope N_scope.
@@ -307,3 +308,78 @@ Proof.
   split; [exact ParseEx.ex_valid|exact ParseEx.ex_print].
 Qed.
 Print Assumptions C15_print_cmdline_accepted_nonvacuous.
+
+(** * Round 3: the phases after the token loop (Derive/DerivePost.v) -- full acceptance of the printed line *)
+
+(** THE DEFAULTS PHASE SUCCEEDS (any command): if every argument either has an entry already or carries a storable default
+    ([default_passes]: no conditional rule; no default, or an unsplit default that passes the argument's own value parser on a
+    storing action), [add_defaults] answers Ok.  (Existence counterpart of C06's [C06_defaults_frame].) *)
+Theorem C15_defaults_phase_succeeds : forall c st,
+  (forall a, In a (c_args c) -> ~ In (a_id a) (groups_for_arg c (a_id a))) ->
+  (forall a, In a (c_args c) -> mt_contains (mt st) (a_id a) = true \/ default_passes a) ->
+  wf_m (mt st) -> mt_pending (mt st) = None ->
+  exists st', add_defaults c st = ROk st' /\ wf_m (mt st') /\ mt_pending (mt st') = None.
+Proof. exact add_defaults_ok. Qed.
+Print Assumptions C15_defaults_phase_succeeds.
+
+(** VALIDATOR COMPLETENESS FOR A COMMAND WITHOUT RELATIONS (any command of the class [norel]: no requires / conditional
+    requirement / conflict / override / exclusive argument, groups only collect): every matcher with unique keys and known
+    ids in which each [required] argument is explicitly present is accepted.  Through C03's completeness on [static_only]. *)
+Theorem C15_validate_complete_norel : forall c mt,
+  assert_app c = true -> norel c = true -> Relations.fm_wf mt -> keys_ok c (mt_args mt) ->
+  (forall p, In p (positionals c) -> a_index p <> None) ->
+  is_set s_arg_required_else_help c = false -> is_set s_sub_required c = false ->
+  (forall a, In a (c_args c) -> a_required a = true -> present mt (a_id a)) ->
+  validate c mt = VOk.
+Proof. exact norel_validate. Qed.
+Print Assumptions C15_validate_complete_norel.
+
+(** THE GENERATED COMMAND ACCEPTS THE PRINTED LINE, ALL PHASES.  Beyond [C15_print_cmdline_accepted_partial]: the environment
+    phase is the identity, the defaults phase stores the default of every unmentioned field ([defaults_pass]: it passes the
+    built argument's value parser), the validator accepts ([required_mentioned]: a field whose generated argument is
+    [required] is written by the printer; the generated command declares nothing else). *)
+Theorem C15_print_accepted : forall d bin vs argv,
+  opt_struct d -> printable (d_nodes d) vs -> accepted_nodes d bin (d_nodes d) vs ->
+  defaults_pass (d_nodes d) vs -> required_mentioned (d_nodes d) vs ->
+  valid (with_bin (derive_cmd d) bin) = true -> print d vs = Some argv ->
+  exists m, parse_top (derive_cmd d) (bin :: argv) = OOk m.
+Proof. exact print_accepted. Qed.
+Print Assumptions C15_print_accepted.
+
+(** ROUND TRIP AS AN EQUALITY: [parse (print v) = Ok v] through the real parser model, for every struct of option fields
+    ([opt_struct], [takes_ok]) and every value of the matches-level class ([ok_nodes]) whose printed groups pass the generated
+    arguments' own count / value-parser checks ([accepted_nodes]) and that mentions the required fields.  Neither the
+    defaults ([defaults_pass] follows from [ok_nodes]) nor the enum check of the derived parser is a hypothesis. *)
+Theorem C15_roundtrip_parse : forall d bin vs argv,
+  opt_struct d -> Forall takes_ok (fields_of (d_nodes d)) -> ok_nodes (d_nodes d) vs ->
+  accepted_nodes d bin (d_nodes d) vs -> required_mentioned (d_nodes d) vs ->
+  valid (with_bin (derive_cmd d) bin) = true -> print d vs = Some argv ->
+  derived_parse d (bin :: argv) = PValue vs.
+Proof. exact roundtrip_parse. Qed.
+Print Assumptions C15_roundtrip_parse.
+
+(** ... and with the class on the derive input alone where requiredness is concerned: no explicit [required = true]
+    (the requiredness the macro infers belongs to plain fields without default, which the printer always writes). *)
+Theorem C15_roundtrip_parse_inferred_required : forall d bin vs argv,
+  opt_struct d -> Forall takes_ok (fields_of (d_nodes d)) -> Forall (fun f => f_required f <> Some true) (fields_of (d_nodes d)) ->
+  ok_nodes (d_nodes d) vs -> accepted_nodes d bin (d_nodes d) vs ->
+  valid (with_bin (derive_cmd d) bin) = true -> print d vs = Some argv ->
+  derived_parse d (bin :: argv) = PValue vs.
+Proof. exact roundtrip_parse_inferred. Qed.
+Print Assumptions C15_roundtrip_parse_inferred_required.
+
+(** Non-vacuity: [{ n: "a", vv: false, c: 0, oo: None, k: "z" }] ([n] required, [k] with [default_value]) prints to
+    [--nn=a --kk=z]; all hypotheses hold; the defaults phase stores "false" and "0"; dropping [--nn=a] is rejected. *)
+Theorem C15_roundtrip_parse_full_nonvacuous :
+  opt_struct PostEx.d /\ Forall takes_ok (fields_of (d_nodes PostEx.d)) /\ ok_nodes (d_nodes PostEx.d) PostEx.v
+  /\ accepted_nodes PostEx.d b_prog (d_nodes PostEx.d) PostEx.v /\ required_mentioned (d_nodes PostEx.d) PostEx.v
+  /\ valid (with_bin (derive_cmd PostEx.d) b_prog) = true /\ print PostEx.d PostEx.v = Some PostEx.argv
+  /\ field_required PostEx.fn = true /\ bf_default PostEx.fl = [s_false] /\ bf_default PostEx.fc = [[48]]
+  /\ derived_parse PostEx.d [b_prog; [45;45;107;107;61;122]] = PError EMissingRequiredArgument.
+Proof.
+  split; [exact PostEx.ex_struct|]. split; [exact PostEx.ex_takes|]. split; [exact PostEx.ex_ok|].
+  split; [exact PostEx.ex_accepted|]. split; [exact PostEx.ex_required_mentioned|]. split; [exact PostEx.ex_valid|].
+  split; [exact PostEx.ex_print|]. destruct PostEx.ex_required as (H1 & H2 & H3).
+  split; [exact H1|]. split; [exact H2|]. split; [exact H3|exact PostEx.ex_missing_required].
+Qed.
+Print Assumptions C15_roundtrip_parse_full_nonvacuous.
